@@ -86,6 +86,12 @@ def main():
         print("refusing: /repo has uncommitted changes", st)
         return 2
     results = {}
+    # evidence files describe the unchanged tree: keep them out of the seeded run
+    saved_ev = {}
+    for c in checks:
+        ep = os.path.join(VERIF, "evidence", f"{c}.json")
+        if os.path.exists(ep):
+            saved_ev[ep] = open(ep).read()
     rca, oa = sh(f"git -C /repo apply {patch}")
     try:
         if rca != 0:
@@ -107,6 +113,8 @@ def main():
                         pass
     finally:
         sh("git -C /repo checkout -- . && git -C /repo clean -fdq src tests")
+        for ep, txt in saved_ev.items():
+            open(ep, "w").write(txt)
     rec["checks"] = results
     rec["caught_by"] = [c for c, r in results.items() if r["exit"] == 1]
     rec["what_it_needs"] = agent_meta.get("needs", "")
